@@ -1996,6 +1996,8 @@ class StrProfile(Translator):
         self.env = [{}]
         self.mutset = set()
         self.strings = {pn for pn, pt in f.params if "str" in pt.replace(" ", "") and "[" not in pt}
+        self.subslices = {}
+        self.selfvals = set()
         em = Emitter()
         self.em = em
         self.inout = None
@@ -2249,6 +2251,23 @@ class StrProfile(Translator):
         return super().mcall_expr(e, hoist)
 
     def effect_stmt(self, e):
+        sub = getattr(self, "subslices", {})
+        if e.kind == "mcall" and e.name in ("copy_from_slice", "clone_from_slice", "fill") and e.recv.kind == "path" \
+                and len(e.recv.path) == 1 and e.recv.path[0] in sub:
+            x, lo_t, hi_t = sub[e.recv.path[0]]
+            if e.name == "fill":
+                if lo_t is None or self.ex(e.args[0]) != "0":
+                    raise Untranslatable("fill of an unexpected slice")
+                self.em.w(f"if ¬ ({lo_t} ≤ {x}.size) then failure")
+                self.em.w(f"{x} := {x}.extract 0 {self.atom(lo_t)} ++ zerosBA ({x}.size - {self.atom(lo_t)})")
+                return True
+            if hi_t is None:
+                raise Untranslatable("copy into an unexpected slice")
+            src = self.ex(e.args[0], hoist=True)
+            self.em.w(f"if ¬ ({hi_t} ≤ {x}.size) then failure")
+            self.em.w(f"if ¬ ({self.atom(src)}.size = {hi_t}) then failure")
+            self.em.w(f"{x} := {self.atom(src)} ++ {x}.extract {self.atom(hi_t)} {x}.size")
+            return True
         if e.kind == "mcall" and e.name in ("copy_from_slice", "clone_from_slice") and not self.is_self(e.recv):
             sp = self.slice_parts(e.recv)
             if sp is None:
@@ -2308,6 +2327,19 @@ class StrProfile(Translator):
         super().expr_stmt(e)
 
     def let_stmt(self, s):
+        # `let (a, b) = self.value.split_at_mut(n)`: `a` and `b` are the sub-slices `[..n]` and `[n..]` of that buffer;
+        # writes through them are writes to the buffer
+        if s.pat.kind == "ptuple" and len(s.pat.items) == 2 and all(x.kind == "pident" for x in s.pat.items) and s.init is not None \
+                and s.init.kind == "mcall" and s.init.name == "split_at_mut" and len(s.init.args) == 1 \
+                and s.init.recv.kind == "field" and self.is_self(s.init.recv.e) and self.place(s.init.recv) == "value":
+            x = self.place(s.init.recv)
+            n = self.ex(s.init.args[0], hoist=True)
+            self.em.w(f"if ¬ ({n} ≤ {x}.size) then failure")
+            if not hasattr(self, "subslices"):
+                self.subslices = {}
+            self.subslices[s.pat.items[0].name] = (x, None, n)
+            self.subslices[s.pat.items[1].name] = (x, n, None)
+            return
         # `let value = [0; MAX_SIZE]` etc. are ordinary; a `let mut x = <byte buffer>` must be mutable
         if s.pat.kind == "pident" and s.init is not None and s.pat.mut:
             v = self.ex(s.init, hoist=True)
